@@ -482,7 +482,7 @@ class Evaluator:
                 return {"True": True, "False": False, "None": None}[e.id]
             if e.id in self.externals:
                 x = self.externals[e.id]
-                return x if isinstance(x, (Namespace, Obj)) else ("pyfunc", x)
+                return x if isinstance(x, (Namespace, Obj)) or not callable(x) else ("pyfunc", x)   # data stand-ins (tables) are values
             if e.id == "__file__":
                 return mod.path
             r = self.repo.resolve_name(mod.name, e.id)
